@@ -231,6 +231,65 @@ def gen_factory(tier):
     return gen
 
 
+# every way a constructor can be written, in every permission situation that forbids it
+SPELLINGS = [
+    "o = vmod();", "o = vmod( );", "o = vmod(\n);", "o = vmod(/* none */);", "o = vmod (1);", "o = vmod(1);", "o = vmod(1, 2);", 'o = vmod("abc");',
+    "o = vmod(vmod());", "o = Vmod();", "o = VMOD();", "print vmod().get();", "zz = vmod().id();", "w = tab(1, vmod());", "w = tup(vmod(), 1);",
+    "print isnull(vmod());", "if isnull(vmod()) then nop; end if;", "forall x in tab(1, vmod()) loop nop; end loop;",
+    "while isnull(vmod()) loop break; end loop;", "for i in 1 to vmod().get() loop nop; end loop;",
+    "begin raise e1; exception when e1 then o = vmod(); end;", "function mk0() return vmod is begin return vmod(); end; o = mk0();",
+    "function mk1() return integer is begin w = vmod(); return w.get(); end; print mk1();",
+    "function mk3(n) return integer is begin if n > 0 then return vmod().get(); end if; return 0; end; print mk3(0);",
+    "o = null; o = vmod();", "$s = vmod();", "return vmod();", "o = vmod().self();", "o = vmod().make();",
+]
+SITUATIONS = {
+    "nothing": [],
+    "other-module": ["unban %s" % hx("vmod2")],
+    "granted-then-cleared": ["unban %s" % hx("vmod"), "clearperm"],
+    "granted-compiled-then-cleared": ["unban %s" % hx("vmod"), "G", "clearperm"],
+}
+
+
+def spell_gen(tier):
+    def gen():
+        n = 0
+        for sname, sops in SITUATIONS.items():
+            for where in ("orig", "clone"):
+                for loaded in ("t:import", "t:ctor"):
+                    for sp in SPELLINGS:
+                        c = 0 if where == "orig" else 2
+                        ops = ["isolate", op_ctx(0, False), op_ctx(1, True), op_run("zz = 0;", slot=0)] + ev_ops(loaded)
+                        for o in sops:
+                            ops.append(op_run("g0 = vmod(5);", slot=0) if o == "G" else o)
+                        if where == "clone":
+                            ops.append("clone 0 2")
+                        ops += ["vlog", op_run(sp, slot=c), "vlog", op_run("import vmod; " + sp, slot=1), "vlog",
+                                "unban %s" % hx("vmod"), op_run(sp, slot=c), "vlog"]
+                        yield Case("s%d" % n, ops, {"kind": "spell", "sit": sname, "where": where, "sp": sp})
+                        n += 1
+    return gen
+
+
+def check_spell(case, res, vs):
+    m = case.meta
+    st = res["steps"]
+    # the last 7 steps: vlog, refused run, vlog, trusted run, vlog, unban, granted run, vlog
+    r_ref, l_ref, r_tr, l_tr, r_gr, l_gr = st[-7], st[-6], st[-5], st[-4], st[-2], st[-1]
+    created = sum(1 for line in l_ref.get("log", "").splitlines() if line.startswith("C vmod "))
+    where = "%s in the %s context, situation %s" % (m["sp"], m["where"], m["sit"])
+    if created:
+        vs.append(Violation("spelling:object-without-grant", "%d object(s) created by %s" % (created, where), case))
+    got, msg = outcome_of(r_ref)
+    if got != "rejected":
+        vs.append(Violation("spelling:accepted-without-grant", "%s was not refused at compile time: %s %r" % (where, got, msg), case))
+    # with the grant the same text must behave as in a trusted context (keeps the family from being vacuous)
+    g1, _ = outcome_of(r_tr)
+    g2, _ = outcome_of(r_gr)
+    if g1 != g2:
+        vs.append(Violation("spelling:granted-differs-from-trusted", "%s: trusted context %s, granted untrusted context %s" % (where, r_tr, r_gr), case))
+    return vs, g2 == "ok"
+
+
 def outcome_of(stepres):
     """ok | rejected (any parse error: the wording and number of the message are not part of the property) | other"""
     r = stepres.get("r")
@@ -247,6 +306,8 @@ def check(case, res):
         return vs, True
     m = case.meta
     st = res["steps"]
+    if m["kind"] == "spell":
+        return check_spell(case, res, vs)
     hist = m["hist"]
     p = P()
     k = 4
@@ -285,9 +346,12 @@ def run(tier):
     build.ensure("asan", bins=("vdrv", "vmod"))
     inc_path()
     res = explore(PROP + "-" + tier, gen_factory(tier), check, chunk=40, deadline=t0 + (3000 if tier == "thorough" else 420))
+    res.merge(explore(PROP + "-" + tier + "-spellings", spell_gen(tier), check, chunk=40, deadline=t0 + (3000 if tier == "thorough" else 420)))
     rule = ("event histories over %d events (grant vmod / vmod2, clear, clone; trusted import / construct; untrusted import by name, by path, include, "
             "constructor at top level, in a function body, copy constructor, upper-case spelling, typed declaration, typed parameter, method on typed null, "
             "compile now and run later, call of a function compiled earlier; the same in the clone incl. execute2 of the original's program): all histories "
-            "of length <=%d, then breadth-first over model-distinct states to depth %d; each history in a fresh process" % (
-                len(EVENTS), 4 if tier == "thorough" else 3, 8 if tier == "thorough" else 6))
+            "of length <=%d, then breadth-first over model-distinct states to depth %d; each history in a fresh process; plus %d constructor spellings (empty / blank / commented argument list, every arity, nested, "
+            "upper case, inside expressions, conditions, loop headers, handlers, function bodies, return) x 4 situations without a valid grant x original / "
+            "clone x module loaded by import / by construction: refused at compile time, no object created, and identical to a trusted context once granted" % (
+                len(EVENTS), 4 if tier == "thorough" else 3, 8 if tier == "thorough" else 6, len(SPELLINGS)))
     return finish(PROP, tier, res, check, rule, t0, assumptions=["permission model ref_perm in vf/props/c16.py", "vmod stands for any module; csv/file are exercised by C18"])
